@@ -2,6 +2,7 @@
 import sys, math
 from fractions import Fraction
 from common import *  # noqa
+sys.path.insert(0, os.path.join(VERIF, 'translate')); import cores  # noqa: E402
 import seq_common as seqc
 
 PID = 'C06'
@@ -369,7 +370,13 @@ def main():
                        'equal-size inputs; a failure is reported with the calls that preceded it in its process (replayed as history + case); '
                        'object-reuse probes (common.reuse_probe) on the same array object: re-weighted in place, shared with a sibling routine, returned array edited',
                        'randmio_*_signed are called on empty-diagonal input (property quantifier); the null models clear the diagonal themselves']
+    # T-gen: re-extract the core update steps from /repo's current source (translate/cores.py); the generated
+    # obligations say the extracted IR is the reference program whose interpreter is proved equal to the model
+    ck.cov['cores'] = cores.generate(families=['util'])
+    for p_ in ck.cov['cores']['problems']:
+        ck.corr_break('core extractor (translate/cores.py)', p_)
     ok = ck.lean_gate(['BctVerif.Props.C06'], extra_modules=['BctVerif.Model.Signed'])
+    ck.lean_gate([], gen_modules=['BctVerif.Gen.CoresUtil'])
     if ck.tier == 'thorough' and ok:
         ck.leanchecker(['BctVerif.Props.C06', 'BctVerif.Model.Signed'])
     if ck.replay:
